@@ -27,6 +27,8 @@ SUITES = {
 }
 
 PROP_FILES = {
+    "C01": ["Props/C01.v"],
+    "C12": ["Props/C12.v"],
 }
 
 TRUSTED_BASE = [
